@@ -355,6 +355,46 @@ class Interp:
         e.attrs["type"] = op["type"]
         e.info.update(cols=list(op["cols"]), rows=rows)
 
+    # frames: units, one more column, more rows (the table itself is C16's subject; here the ops exist so that
+    # histories of the other checks contain them)
+    def op_frame_units(self, op):
+        fr = self.pick("frame", op["t"])
+        if fr is None:
+            return False
+        h = self.handle(fr, op.get("how", "name"))
+        ncol = len(fr.info["cols"])
+        units = None if op.get("units") is None else [op["units"][i % len(op["units"])] for i in range(ncol)]
+        h.units = units
+        fr.attrs["units"] = units
+
+    def op_frame_add_col(self, op):
+        fr = self.pick("frame", op["t"])
+        if fr is None or any(c[0] == op["name"] for c in fr.info["cols"]):
+            return False
+        h = self.handle(fr, op.get("how", "name"))
+        nrows = len(fr.info["rows"])
+        col = [int(op.get("seed", 0)) + i for i in range(nrows)]
+        h.append_column(col, op["name"], datatype=int)
+        fr.info["cols"] = list(fr.info["cols"]) + [[op["name"], "int"]]
+        fr.info["rows"] = [tuple(r) + (col[i],) for i, r in enumerate(fr.info["rows"])]
+        if fr.attrs.get("units") is not None:
+            fr.attrs["units"] = list(fr.attrs["units"]) + [None]
+
+    def op_frame_add_rows(self, op):
+        fr = self.pick("frame", op["t"])
+        if fr is None:
+            return False
+        h = self.handle(fr, op.get("how", "name"))
+        rows = []
+        for k in range(int(op.get("n", 1))):
+            row = []
+            for j, (_, t) in enumerate(fr.info["cols"]):
+                v = int(op.get("seed", 0)) + k + j
+                row.append({"int": v, "float": v + 0.5, "str": "r%d" % v, "bool": bool(v % 2)}.get(t, v))
+            rows.append(tuple(row))
+        h.append_rows(rows)
+        fr.info["rows"] = list(fr.info["rows"]) + rows
+
     def op_mk_tag(self, op):
         blk = self._ensure_block(op["blk"])
         h = self.handle(blk, op.get("how", "name")).create_tag(op["name"], op["type"], list(op["pos"]))
